@@ -1,6 +1,6 @@
 #!/bin/bash
-# confirm_seeded.sh <ID> : in the scratch worktree /tmp/wt/<ID> (change applied, uncommitted) confirm that
-#  - the library builds and the existing suite passes with the change,
+# confirm_seeded.sh <ID> : in the scratch worktree /tmp/wt/<ID> confirm that
+#  - patch.diff applies to a clean checkout, the library builds and the existing suite passes with the change,
 #  - the demonstration fails with the change and passes without it.
 set -u
 ID=$1
@@ -8,23 +8,25 @@ WT=/tmp/wt/$ID
 SD=/tmp/seeded/$ID
 export GOFLAGS=-mod=mod GOPROXY=off GOSUMDB=off GOTOOLCHAIN=local
 cd $WT || exit 2
+git checkout -q -- . ; git clean -fdq
+git apply $SD/patch.diff || { echo "PATCH DOES NOT APPLY"; exit 1; }
 demo=$(ls $SD/*_test.go | head -1)
 pkgline=$(grep -m1 '^package ' $demo | awk '{print $2}')
 case $pkgline in
   tests) dir=tests;; fix) dir=fix;; fix_test) dir=fix;; encoding|encoding_test) dir=fix/encoding;; simplefixgo|simplefixgo_test) dir=.;; session|session_test) dir=session;; *) dir=tests;;
 esac
 race=""
-grep -qi "race" $SD/notes.md && [ "$ID" = "C20" ] && race="-race"
-echo "== $ID: demo $(basename $demo) in $dir $race"
-git status --short | head -5
+grep -q "go:build race\|-race" $demo $SD/notes.md 2>/dev/null && [[ "$ID" == C20* ]] && race="-race"
+pat=$(grep -o 'func Test[A-Za-z0-9_]*' $demo | awk '{print $2}' | paste -sd'|')
+echo "== $ID: demo $(basename $demo) in $dir $race ($pat)"
 go build ./... || { echo "BUILD FAILS"; exit 1; }
-suite=$(go test -vet=off -count=1 ./fix/... ./utils/... ./session/... ./tests/... 2>&1 | grep -E '^(ok|FAIL|panic)' | tr '\n' ' ')
+suite=$(go test -vet=off -count=1 ./fix/... ./utils/... ./session/... ./tests/... 2>&1 | grep -E '^(ok|FAIL|panic)' | awk '{print $1}' | sort | uniq -c | tr '\n' ' ')
 echo "suite with change: $suite"
 cp $demo $dir/zz_seeded_demo_test.go
-with=$(go test $race -vet=off -count=1 -run . ./$dir 2>&1 | grep -E '^(ok|FAIL|---|panic)' | head -5 | tr '\n' ' ')
+with=$(go test $race -vet=off -count=1 -run "$pat" ./$dir 2>&1 | grep -E '^(ok|FAIL|---|panic)' | head -4 | tr '\n' ' ')
 echo "demo WITH change: $with"
-git stash -q
-without=$(go test $race -vet=off -count=1 -run . ./$dir 2>&1 | grep -E '^(ok|FAIL|---|panic)' | head -5 | tr '\n' ' ')
+git apply -R $SD/patch.diff
+without=$(go test $race -vet=off -count=1 -run "$pat" ./$dir 2>&1 | grep -E '^(ok|FAIL|---|panic)' | head -4 | tr '\n' ' ')
 echo "demo WITHOUT change: $without"
-git stash pop -q
+git apply $SD/patch.diff
 rm -f $dir/zz_seeded_demo_test.go
